@@ -26,14 +26,25 @@ Tie (route C).  Three harnesses, corpus first:
       every frame under one label and nothing else.  The oracle hypothesis
       [finds] itself (the image search re-finds a blob) is not evaluated: it is
       what the run tests.
+
+Route T (relocation of lost features): tools/py2coq_findlink.py re-translates the CURRENT text of
+FindLinker.percentile_threshold / get_relocate_candidates / relocate ($TRACKPY_REPO/trackpy/linking/
+find_link.py) into coq/Gen/findlink.v on every run, before the cone of Properties/C14.v is
+rebuilt; Proofs/FindlinkGen.v proves the generated functions equal to Model/FindLink.relocate_cands /
+relocate / image_reloc and Properties/C14.v (14)-(19) restates the theorems for them.  A source that
+leaves the translatable subset, or a generated function whose equality proof no longer checks, is
+reported through chk.proof_broken; harnesses (A)-(D) still run against the hand model, so that a
+concrete failing input is searched for as well.
 """
-import math
+import math, os, sys, hashlib
 import numpy as np
 from fractions import Fraction
 import common, findlinkgen as G
 from common import cnat, cZ, cQ, clist, cbool
 
 IMPORTS = "From TP Require Import Model.Assign Model.Link Model.Dilation Model.FindLink Model.FindLinkCheck."
+TRANSLATOR = os.path.join(common.VERIF, 'tools', 'py2coq_findlink.py')
+GEN = os.path.join(common.COQ, 'Gen', 'findlink.v')
 CAND_FUNC = "fun c => match c with (P, im, t, pos, known, out) => check_cands_t P im t pos known out end"
 NC_FUNC = "fun c => match c with (P, im, t, pos, known, out) => n_cands P im t pos known end"
 CAND_CODES = {
@@ -638,9 +649,70 @@ def eval_movies(chk, movies, tag):
     return runs
 
 
+# ----------------------------------------------------------------------------
+# translator / build (route T)
+# ----------------------------------------------------------------------------
+def regenerate(chk):
+    """re-run the translator on the current source; returns (ok, text-or-log)"""
+    rc, out = common.sh([sys.executable, TRANSLATOR, '--repo', common.REPO, '--stdout'], timeout=60)
+    if rc != 0:
+        return False, out
+    with common.Lock(os.path.join(common.COQ, '.build.lock')):
+        old = open(GEN).read() if os.path.exists(GEN) else None
+        if old != out:
+            os.makedirs(os.path.dirname(GEN), exist_ok=True)
+            tmp = GEN + '.tmp%d' % os.getpid()
+            with open(tmp, 'w') as f:
+                f.write(out)
+            os.replace(tmp, GEN)
+            chk.tally('Gen/findlink.v rewritten (source differs from last run)')
+        else:
+            chk.tally('Gen/findlink.v unchanged')
+    return True, out
+
+
+def ensure_model(chk):
+    """the executable hand model and monitors are needed by the correspondence run even when the
+    translation or a proof about the generated functions is broken"""
+    targets = ['Model/FindLinkCheck.v', 'Model/FindLink2.v']
+    with common.Lock(os.path.join(common.COQ, '.build.lock')):
+        rc, out = common.sh('timeout 600 make %s 2>&1 | tail -40' % ' '.join(t + 'o' for t in targets), timeout=630, cwd=common.COQ)
+        for t in targets:
+            vo = os.path.join(common.COQ, t + 'o')
+            if not (os.path.exists(vo) and os.path.getmtime(vo) >= os.path.getmtime(os.path.join(common.COQ, t))):
+                chk.proof_broken(t + ' (hand model does not build)', out)
+                return False
+    return True
+
+
+def build(chk):
+    """translator -> cone of Properties/C14.v -> executable hand model"""
+    ok, text = regenerate(chk)
+    if not ok:
+        chk.proof_broken('translation tools/py2coq_findlink.py (FindLinker.percentile_threshold / get_relocate_candidates / relocate '
+                         'left the translatable subset)', text)
+        chk.build = dict(obligations=0, discharged=0, assumptions=[], files=[], theorems=[])
+    else:
+        b = None
+        for attempt in range(3):
+            b = chk.coq()
+            if open(GEN).read() == text:
+                break
+            # another run (different TRACKPY_REPO) rewrote the generated file in between: redo
+            chk.violations = [v for v in chk.violations if not v[0].startswith('proof:')]
+            regenerate(chk)
+        chk.notes.append('Gen/findlink.v sha1 %s generated from %s' % (hashlib.sha1(text.encode()).hexdigest()[:12], common.REPO))
+        if b is not None and not b['ok']:
+            # say which statement about the generated functions no longer checks
+            with common.Lock(os.path.join(common.COQ, '.build.lock')):
+                rc, out = common.sh('timeout 600 make Proofs/FindlinkGen.vo 2>&1 | tail -25', timeout=630, cwd=common.COQ)
+            chk.notes.append('make Proofs/FindlinkGen.vo (generated functions = model): ' + out[-2500:])
+    return ensure_model(chk)
+
+
 def run(chk):
     common.quiet_trackpy()
-    chk.coq()
+    build(chk)
     rng = chk.rng
     quick = chk.tier == 'quick'
     # corpus first
@@ -679,13 +751,14 @@ def run(chk):
         "float mask tests (x/R)**2+(y/R)**2 <= 1 agree with the exact ones except on 5-12-13 lattice points (radii 13, 26, 39: kept out of the model comparison, counted)",
         "the subnet bookkeeping of assign_links (include_lost / merge_lost_subnets / add_dest_points, dict order) is tied to the model only through the monitor and the completeness runs, not by a step-wise comparison; the safety theorems hold for every grouping that partitions the sources",
         "preprocess=True: only the monitor (float masses) applies; the candidate model is compared on integer images",
+        "route T: Gen/findlink.v is produced from the current trackpy/linking/find_link.py by tools/py2coq_findlink.py (trusted, fail-closed; subset, conventions and the named numpy / scipy / trackpy primitives in the translator's docstring and Model/PyFindlink.v: masks.slice_image / mask_image, hash.query_points / to_eucl, ndimage.grey_dilation on the slice, find.drop_close (translation invariance assumed), feature.characterize's mass, np.argsort on distinct masses, np.percentile as a parameter); FindLinker.__init__, assign_links, next_level and Subnets.include_lost / merge_lost_subnets / add_dest_points are NOT translated",
     ]
 
 
 def replay(chk, path):
     import json
     common.quiet_trackpy()
-    chk.coq()
+    build(chk)
     r = json.load(open(path))['replay']
     if r.get('kind') == 'candidates':
         c = cand_from_json(r)
